@@ -59,7 +59,14 @@ def build(sys_, order, cons):
 def resolve(sys_, order=None, cons=None, max_iter=None):
     order = sys_["order"] if order is None else order
     cons = sys_["cons"] if cons is None else cons
-    cfg = fdtdx.SimulationConfig(time=1e-9, grid=fdtdx.UniformGrid(spacing=SPACING), backend="cpu", dtype=jnp.float64)
+    if sys_.get("widths"):      # stretched grid (predicate-only cases): cell widths in units of SPACING / (2 D), like every other length
+        import numpy as np
+        u = SPACING / (2 * sys_["D"])
+        edges = [jnp.asarray(np.concatenate([[0.0], np.cumsum(np.asarray(w, dtype=np.float64) * u)])) for w in sys_["widths"]]
+        grid = fdtdx.RectilinearGrid.custom(*edges)
+    else:
+        grid = fdtdx.UniformGrid(spacing=SPACING)
+    cfg = fdtdx.SimulationConfig(time=1e-9, grid=grid, backend="cpu", dtype=jnp.float64)
     try:
         objs, cl = build(sys_, order, cons)
         with warnings.catch_warnings():
